@@ -548,7 +548,9 @@ def dominating_conditions(body, site_block):
         if t["k"] != "switch" or d == site_block:
             continue
         edges = [(v, b) for v, b in t["values"]] + [(None, t["otherwise"])]
-        taking = [(v, b) for v, b in edges if b == site_block or (body.dominates(b, site_block) and _edge_only(body, d, b))]
+        # the edge target must be enterable only through this edge (or from inside its own region): otherwise the
+        # value of the discriminant says nothing at the site (a block shared by several match arms)
+        taking = [(v, b) for v, b in edges if (b == site_block or body.dominates(b, site_block)) and _edge_only(body, d, b)]
         tgt_blocks = set(b for _, b in taking)
         if len(tgt_blocks) != 1:
             continue
